@@ -174,7 +174,7 @@ def prepare(verbose=True):
 # ---------------------------------------------------------------------------------------- queries
 class Query:
     def __init__(self, name, harness, entry, defines=None, unwind=8, unwindset=None, lib="call", ub=True, frozen=False, timeout=None,
-                 cbmc_flags=None, expose=None, tiers=("quick", "thorough"), note="", solver=None, objbits=12, leak=False, known=None, inline=None, cc_defs=None, stubs=None, unit_flags=None):
+                 cbmc_flags=None, expose=None, tiers=("quick", "thorough"), note="", solver=None, objbits=12, leak=False, known=None, inline=None, cc_defs=None, stubs=None, unit_flags=None, dyadic=None, memgb=None):
         self.name, self.harness, self.entry = name, harness, entry
         self.defines = defines or {}
         self.unwind, self.unwindset = unwind, unwindset or {}
@@ -186,6 +186,8 @@ class Query:
         self.inline = inline
         self.cc_defs = cc_defs or []
         self.unit_flags = unit_flags or {}     # {unit: [extra clang flags]}: that library unit is recompiled for this query (e.g. -fno-inline so that a function can be stubbed)
+        self.memgb = memgb
+        self.dyadic = dyadic            # K: exact-dyadic lowering of float (ll2c --dyadic K)
         self.stubs = stubs or []          # library functions (mangled names) whose definition is replaced by one the harness provides under the same name
 
 
@@ -246,6 +248,7 @@ def build_query(q, cache, ll2c, qdir, witness):
     flags = ["--prelude", f"{TOOL}/ll2c_prelude.h"]
     if q.ub and not witness: flags.append("--ub")
     if q.frozen and not witness: flags.append("--frozen")
+    if q.dyadic is not None: flags += ["--dyadic", str(q.dyadic)]
     sh([ll2c, oll, "-o", c] + flags)
     # every LL_* macro the translator emitted must be defined by the prelude (an undefined one would silently become a bodyless function)
     used = set(re.findall(r"\b(LL_[A-Za-z0-9_]+)\s*\(", open(c).read()))
@@ -345,6 +348,7 @@ def run_cbmc(q, gb, cfile, qdir, witness, timeout, memgb):
 def classify(desc):
     d = desc or ""
     if "WITNESS" in d: return "witness"
+    if d.startswith("DYADIC:"): return "unwind"          # an obligation of the float lowering failed: outside the grid, not a verdict
     if "unwinding assertion" in d or "recursion unwinding assertion" in d: return "unwind"
     if d.startswith("PROP:"): return "property"
     if d.startswith("UB:"): return "ub"
@@ -378,7 +382,7 @@ def native_replay(q, rdir, vals, repo=REPO):
     with open(os.path.join(rdir, "values.txt"), "w") as f:
         f.write(f"# nondet return values in call order for {q.harness}:{q.entry} {q.defines}\n")
         for k, v in vals: f.write(f"{v:#x}\n")
-    meta = {"harness": q.harness, "entry": q.entry, "defines": q.defines, "lib": q.lib, "name": q.name, "leak": q.leak, "stubs": q.stubs, "unit_flags": q.unit_flags}
+    meta = {"harness": q.harness, "entry": q.entry, "defines": q.defines, "lib": q.lib, "name": q.name, "leak": q.leak, "stubs": q.stubs, "unit_flags": q.unit_flags, "dyadic": q.dyadic}
     json.dump(meta, open(os.path.join(rdir, "meta.json"), "w"), indent=1)
     return run_replay(rdir)
 
@@ -406,7 +410,7 @@ def run_replay(rdir):
     if meta.get("stubs"): extra = ["-Wl,--allow-multiple-definition"]          # the harness' definition (first on the command line) replaces the library's
     sh(["clang++-14"] + NATIVEFLAGS + san + ["-fno-access-control", "-DVH_NATIVE", f"-DVH_ENTRY_NAME={meta['entry']}", f"-I{HARN}",
         os.path.join(HARN, meta["harness"]), os.path.join(HARN, "replay_rt.cpp")] + defs + objs + extra + ["-o", exe])
-    env = dict(os.environ, VH_VALUES=os.path.join(rdir, "values.txt"), ASAN_OPTIONS=("detect_leaks=1" if meta.get("leak") else "detect_leaks=0") + ":abort_on_error=0:exitcode=43", UBSAN_OPTIONS="print_stacktrace=1:halt_on_error=1:exitcode=44")
+    env = dict(os.environ, VH_VALUES=os.path.join(rdir, "values.txt"), VH_DYADIC=str(meta.get("dyadic") if meta.get("dyadic") is not None else -1), ASAN_OPTIONS=("detect_leaks=1" if meta.get("leak") else "detect_leaks=0") + ":abort_on_error=0:exitcode=43", UBSAN_OPTIONS="print_stacktrace=1:halt_on_error=1:exitcode=44")
     try:
         p = subprocess.run([exe], env=env, stdout=subprocess.PIPE, stderr=subprocess.STDOUT, text=True, timeout=60)
         outp, rc = p.stdout, p.returncode
@@ -450,8 +454,8 @@ def run_query(q, cache, ll2c, pid, tier, keep, timeout, memgb):
     fns = re.findall(r"^[A-Za-z_][\w \*]*?\b(\w+)\([^;{]*\) \{$", open(cfile).read(), re.M)
     rec["functions_encoded"] = sorted(set(fns))
     with cf.ThreadPoolExecutor(2) as ex:
-        fm = ex.submit(run_cbmc, q, gb, cfile, qdir, False, timeout, memgb)
-        fw = ex.submit(run_cbmc, q, gbw, cfilew, qdir, True, timeout, memgb)
+        fm = ex.submit(run_cbmc, q, gb, cfile, qdir, False, timeout, q.memgb or memgb)
+        fw = ex.submit(run_cbmc, q, gbw, cfilew, qdir, True, timeout, q.memgb or memgb)
         main, wit = fm.result(), fw.result()
     rec["seconds"] = round(time.time() - t0, 2)
     rec["cbmc_s"] = main["seconds"]; rec["witness_s"] = wit["seconds"]
